@@ -47,6 +47,8 @@
      SolveStoresDecision       a solve with a deciding metric turns the object into a fixed-stream one
      AbsoluteRankTolerance     the rank of the other users' channel is decided with an absolute tolerance
                                (a full-rank channel of amplitude 1e-7 is taken as rank deficient)
+     MetricArgsSharedByClass   the extra metric arguments live in a class-level dictionary: configuring another object
+                               re-configures this one
      PowerCachedAtConstruction the paths that divide the power equally (no water-filling, no stream
                                reduction) use sqrt(iPu) computed in the constructor               *)
 EXTENDS Integers, Sequences, FiniteSets, TLC, Emit
@@ -74,10 +76,13 @@ view == <<obj, metric, alias, chan, last>>
 
 \* exact values of the labels (num, den); the harness converts them to floats
 PowerVal    == [lo |-> <<1, 10>>, hi |-> <<5, 1>>, mid |-> <<3, 2>>]
-NoiseVal    == [lo |-> <<1, 10000>>, hi |-> <<2, 1>>, mid |-> <<1, 10>>]
+\* zero: noise_var = 0 is a valid value of the attribute (water-filling degenerates to equal power); the channel OBJECT of the
+\* ext-int classes keeps a positive noise variance then (harness), else its covariance would be singular
+NoiseVal    == [lo |-> <<1, 10000>>, hi |-> <<2, 1>>, mid |-> <<1, 10>>, zero |-> <<0, 1>>]
 \* tiny: interference far below the noise (removal is still required exactly); huge: dominant interference (a deciding
 \* metric is then certain to sacrifice streams)
-ExtPowerVal == [zero |-> <<0, 1>>, lo |-> <<1, 2>>, hi |-> <<8, 1>>, na |-> <<0, 1>>, tiny |-> <<1, 10000>>, huge |-> <<1000000, 1>>]
+ExtPowerVal == [zero |-> <<0, 1>>, lo |-> <<1, 2>>, hi |-> <<8, 1>>, na |-> <<0, 1>>, tiny |-> <<1, 10000>>, huge |-> <<1000000, 1>>,
+                micro |-> <<1, 10000000>>]    \* micro: with noise O(1) the covariance is a scaled identity up to 1e-7 - removal still required
 
 MetricNames == {"None", "naive", "fixed", "capacity", "effective_throughput"}
 NoMetric == [name |-> "None", ns |-> 0, mod |-> "none", plen |-> 0]
@@ -164,6 +169,17 @@ SetMetric(name, a) ==
             /\ UNCHANGED alias
             /\ Step("SetMetric", [name |-> name, args |-> a], "rejected")
   /\ UNCHANGED <<obj, chan, last>>
+
+\* ANOTHER live object of the same class is constructed and configured with (name, a): the object under test must not notice
+\* (two objects in one process: class-level / module-level state)
+Bystander(name, a) ==
+  /\ "Bystander" \in Acts /\ ~Sweep /\ obj.cls = "EBD" /\ Accepted(name, a)
+  /\ chan.N > 0 /\ metric.ns <= chan.N
+  /\ metric' = IF Dev.MetricArgsSharedByClass
+                 THEN [metric EXCEPT !.ns = Stored(name, a).ns, !.mod = Stored(name, a).mod, !.plen = Stored(name, a).plen]
+                 ELSE metric
+  /\ UNCHANGED <<obj, alias, chan, last>>
+  /\ Step("Bystander", [name |-> name, args |-> a], "ok")
 
 \* the caller changes the dictionary it handed over in the call just made: the object must not notice
 EditDict ==
@@ -279,8 +295,9 @@ DoSetAttr == /\ obj # NoObj /\ ~Sweep
                 \/ \E lab \in NvLabels : SetAttr("noise_var", lab)
                 \/ \E lab \in PeLabels : SetAttr("pe", lab)
 DoCalcReceiveFilter == \E how \in {"static", "module"} : CalcReceiveFilter(how)
+DoBystander == obj.cls = "EBD" /\ \E name \in MetricNames : \E a \in Supplied(name) : Bystander(name, a)
 DoCalcFilterUserK == obj.cls = "EBD" /\ \E ns \in 0..3 : CalcFilterUserK(ns)
-Next == DoCalcFilterUserK \/ DoConstruct \/ DoSetAttr \/ DoSetMetric \/ EditDict \/ DoNewChannel \/ DoSolveBD \/ SolveExt \/ CalcWhitening \/ DoCalcReceiveFilter \/ Scribble
+Next == DoBystander \/ DoCalcFilterUserK \/ DoConstruct \/ DoSetAttr \/ DoSetMetric \/ EditDict \/ DoNewChannel \/ DoSolveBD \/ SolveExt \/ CalcWhitening \/ DoCalcReceiveFilter \/ Scribble
 Spec == Init /\ [][Next]_vars
 
 (* ---------------------------------- what the property requires --------------------------------- *)
@@ -374,6 +391,7 @@ ProbeOf(o, m, c) == IF ExtEnabled(o, m, c)
 FrameOf(r) == {"ArgumentsUnchanged", "EarlierResultsUnchanged"}
               \cup (IF r.out = "rejected" THEN {"RejectedChangesNothing"} ELSE {})
               \cup (IF r.op \in {"CalcWhitening", "CalcReceiveFilter", "CalcFilterUserK"} THEN {"QueryIsPure"} ELSE {})
+              \cup (IF r.op = "Bystander" THEN {"OtherObjectsDoNotMatter"} ELSE {})
               \cup (IF r.op = "SetAttr" THEN {"LaterSolvesObeyCurrentAttributes"} ELSE {})
 Emit == EmitEdge([pre |-> StateRec, post |-> StateRecP, ret |-> ret', req |-> ReqOf(obj', last'),
                   probe |-> ProbeOf(obj', metric', chan'), frame |-> FrameOf(ret')])
